@@ -163,7 +163,7 @@ def degrees(rnd):
 
 def run(ctx):
     fl = import_library()
-    ncons = ctx.scale(1000, 10_000)
+    ncons = ctx.scale(1000, 60_000)
     ctx.rule = (
         f"every Rule.trigger call observed. Workload: {ncons} consequents with 1-3 conclusions over 1-3 output variables, 0-2 hedges per conclusion, "
         "optional `with w`, enabled/disabled rules and variables; rule degrees forced through a stub (0, 1, partial, NaN, +-inf; scalar and "
